@@ -77,6 +77,7 @@ type Exec struct {
 	instrs   int
 	unwind   int
 	unwindAs string // assertion name for unwinding overrun ("" = inconclusive)
+	unwindFn string // if set, the harness bound applies only to functions whose name contains it
 	explore  bool   // schedule exploration
 	preempt  int    // remaining pre-emptions
 	timers   []*ChanObj
@@ -90,6 +91,7 @@ type Exec struct {
 	clock    *Term
 	notes    map[string]interface{}
 	hashes   []hashRec
+	pcKeys   map[[16]byte]bool
 	sched    []string // pre-emptions taken on this path (thread, position, thread switched to)
 	allMutexes []*mutexState
 }
@@ -150,7 +152,40 @@ func (ex *Exec) addPC(t *Term) {
 		}
 		return
 	}
+	ex.pushPC(t)
+}
+
+// pushPC appends a conjunct to the path condition and indexes it (and its conjuncts) by structure, so that a
+// later branch on the same condition is decided without a solver call.
+func (ex *Exec) pushPC(t *Term) {
 	ex.pc = append(ex.pc, t)
+	if ex.pcKeys == nil {
+		ex.pcKeys = map[[16]byte]bool{}
+	}
+	var idx func(t *Term)
+	idx = func(t *Term) {
+		ex.pcKeys[t.Key()] = true
+		if t.Op == OpAnd {
+			for _, a := range t.Args {
+				idx(a)
+			}
+		}
+	}
+	idx(t)
+}
+
+// known reports whether c (1) or its negation (-1) is syntactically part of the path condition.
+func (ex *Exec) known(c *Term) int {
+	if ex.pcKeys == nil {
+		return 0
+	}
+	if ex.pcKeys[c.Key()] {
+		return 1
+	}
+	if ex.pcKeys[Not(c).Key()] {
+		return -1
+	}
+	return 0
 }
 
 // branch decides a condition, forking when both sides are feasible.
@@ -160,6 +195,11 @@ func (ex *Exec) branch(c *Term) bool {
 	}
 	if c.IsConst() {
 		return c.B
+	}
+	if k := ex.known(c); k != 0 {
+		// already part of the path condition syntactically: not a decision (a replay has the same path
+		// condition at this point, so it takes the same shortcut)
+		return k > 0
 	}
 	if ex.pos < len(ex.prefix) {
 		d := ex.prefix[ex.pos]
@@ -191,6 +231,9 @@ func (ex *Exec) branch(c *Term) bool {
 	}
 	if r1 == Unknown || r2 == Unknown {
 		ex.H.incFU()
+	}
+	if traceCalls && ex.cur != nil {
+		fmt.Fprintf(os.Stderr, "FORK in %s\n", ex.cur.where)
 	}
 	alt := append(append([]Dec{}, ex.trace...), Dec{K: 'b', V: 0})
 	ex.H.push(alt)
@@ -316,7 +359,7 @@ func (ex *Exec) obligation(name string, cond *Term, msg string) {
 		if r == Unsat {
 			ex.end("assert-failed-always")
 		}
-		ex.pc = append(ex.pc, cond)
+		ex.pushPC(cond)
 	} else if !cond.B {
 		ex.end("assert-failed-always")
 	}
@@ -333,7 +376,7 @@ func (ex *Exec) assume(c *Term) {
 	if r == Unsat {
 		ex.end("assume-false")
 	}
-	ex.pc = append(ex.pc, c)
+	ex.pushPC(c)
 }
 
 // ---------- threads ----------
